@@ -7,6 +7,8 @@ Ev == Rec[l]
 IsEvent(e) == l <= Len(Rec) /\ Rec[l].ev = e /\ l' = l + 1
 Chk(name, cond) == IF cond THEN TRUE ELSE PrintT(<<"FAIL", l, "C20", name>>)
 A(v) == <<v[1], v[2], v[3]>>
+\* a figure that is not a finite number is logged as -999999999
+Fin(x) == x > -900000000
 Orients == {"N", "NE", "E", "SE", "S", "SW", "W", "NW", "HZ"}
 
 TNday == /\ IsEvent("Nday")
@@ -14,23 +16,26 @@ TNday == /\ IsEvent("Nday")
 \* sun direction: the implementation's altitude/azimuth pushed through its own ray_dir_to_sun
 TSun == /\ IsEvent("SunVec")
         /\ LET d == A(Ev.decl)  w == A(Ev.hour)  p == A(Ev.lat)  D == SunDen(d, w, p) IN
+           /\ Chk("SunDirectionIsFinite", Fin(Ev.got[1]) /\ Fin(Ev.got[2]) /\ Fin(Ev.got[3]))
            /\ Chk("SunDirectionAgreesWithSphericalAstronomy",
-                  (SunUp(d, w, p) * 100 > D * 2) =>              \* sun at least ~1.1 degrees above the horizon
+                  (Fin(Ev.got[1]) /\ Fin(Ev.got[2]) /\ Fin(Ev.got[3]) /\ SunUp(d, w, p) * 100 > D * 2) =>              \* sun at least ~1.1 degrees above the horizon
                      /\ Near4(Ev.got[1], SunEast(d, w, p), D, 12)
                      /\ Near4(Ev.got[2], SunNorth(d, w, p), D, 12)
                      /\ Near4(Ev.got[3], SunUp(d, w, p), D, 12))
 TInc == /\ IsEvent("Incidence")
         /\ LET d == A(Ev.decl)  w == A(Ev.hour)  p == A(Ev.lat)  t == A(Ev.tilt)  a == A(Ev.az) IN
-           Chk("IncidenceIsAngleBetweenSunAndOutwardNormal",
-               Near4(Ev.gotcos, CosIncNum(d, w, p, t, a), SunDen(d, w, p) * NormDen(t, a), 12))
+           /\ Chk("IncidenceAngleIsFinite", Fin(Ev.gotcos))
+           /\ Chk("IncidenceIsAngleBetweenSunAndOutwardNormal",
+                  Fin(Ev.gotcos) => Near4(Ev.gotcos, CosIncNum(d, w, p, t, a), SunDen(d, w, p) * NormDen(t, a), 12))
 \* one day of the weather file, hour by hour (0.1 W/m2): horizontal surface = input when the sun is at least
 \* 6 degrees up; downward-facing surface = albedo (0.2) x global horizontal; beam never negative
 THours == /\ IsEvent("RadDay")
+          /\ Chk("RadiationFiguresAreFinite", \A i \in DOMAIN Ev.hin : Fin(Ev.hin[i]) /\ Fin(Ev.hout[i]) /\ Fin(Ev.down[i]) /\ Fin(Ev.alt[i]))
           /\ Chk("HorizontalSurfaceReceivesHorizontalInput",
-                 \A i \in DOMAIN Ev.hin : (Ev.alt[i] >= 600) =>
+                 \A i \in DOMAIN Ev.hin : (Ev.alt[i] >= 600 /\ Fin(Ev.hin[i]) /\ Fin(Ev.hout[i])) =>
                       Abs(Ev.hout[i] - Ev.hin[i]) <= 2 + Ev.hin[i] \div 200)
           /\ Chk("DownwardSurfaceReceivesAlbedoTimesGlobal",
-                 \A i \in DOMAIN Ev.hin : Abs(Ev.down[i] * 5 - Ev.hin[i]) <= 10 + Ev.hin[i] \div 200)
+                 \A i \in DOMAIN Ev.hin : (Fin(Ev.hin[i]) /\ Fin(Ev.down[i])) => Abs(Ev.down[i] * 5 - Ev.hin[i]) <= 10 + Ev.hin[i] \div 200)
           /\ Chk("BeamNeverNegative", \A i \in DOMAIN Ev.minbeam : Ev.minbeam[i] >= 0)
 \* the embedded tables
 TZone == /\ IsEvent("Zone")
